@@ -283,6 +283,16 @@ CLAIMS["C05"]["text"] += (" Translator tie (harness/py2coq_state.py, fail-closed
                           "no-failing-input-found.")
 
 
+CLAIMS["C16"]["ties"] = (_arith_tie_for("C16"),)
+CLAIMS["C16"]["technique"] += " + source-to-Gallina translator tie for the two decisions of TradingHaltRule (regenerated and re-proved every run)"
+CLAIMS["C16"]["text"] += (" Translator tie (harness/py2coq_arith.py): the halt decision of TradingHaltRule.hooked_after_execution and the resume decision of hooked_before_step_for_market "
+                          "are REGENERATED from /repo's source on every run and coq/translated/ArithC16Proofs.v is re-checked against the generated text: the market must be running, "
+                          "|p0 - p| must reach |p0 x rate x (halts so far + 1)| and the market must be a target - and that is exactly when the model's halt_after_execution (the function "
+                          "the C16 theorems are about) halts; the resume branch is entered exactly when the clock has passed start + length on a target. What the rule does after "
+                          "deciding (stop / restart, the session's switch, remembering market and session, counting) is modelled by hand; its source text is pinned, so an edit of it "
+                          "makes the translator fail closed.")
+
+
 def _index_tie():
     import translated
     return translated.index_tie()
